@@ -12,9 +12,10 @@ theorem upd2_apply {α : Type} (f : Nat → Nat → α) (i j x y : Nat) (v : α)
 
 /-- for every interleaving, whatever the callers do -/
 structure TInv (s : State) : Prop where
-  unborn : ∀ a, (s.cell a).born = false → s.cell a = {}
+  unborn : ∀ a, (s.cell a).born = false →
+    (s.cell a).status = 0 ∧ (s.cell a).el = none ∧ (s.cell a).remote = false ∧ (s.cell a).cons ≠ .done
   owner : ∀ n a, s.names n = some a →
-    (s.cell a).name = some n ∧ (s.cell a).remote = false ∧ (s.cell a).born = true ∧
+    (s.cell a).name = some n ∧ (s.cell a).remote = false ∧ (s.cell a).cons.holds = true ∧
     (stopping ≤ (s.cell a).status → ∀ t, (s.cell a).el = some t → (s.thr a t).hasName = true)
   pidOwner : ∀ a, s.pids a = true →
     (s.cell a).remote = false ∧ (s.cell a).born = true ∧
@@ -23,6 +24,7 @@ structure TInv (s : State) : Prop where
   blkEl : ∀ a t rest st, s.thr a t = .blk rest st → (s.cell a).el = some t ∧ st ≤ (s.cell a).status
   doneLe : ∀ a t, s.done a t ≤ (s.cell a).status
   le6 : ∀ a, (s.cell a).status ≤ stopped
+  bornCons : ∀ a, (s.cell a).born = true → (s.cell a).cons = .done
 
 theorem bp_name (st : Nat) : (TPc.blk blockProg st).hasName = true := by simp [TPc.hasName, blockProg]
 theorem bp_pid (st : Nat) : (TPc.blk blockProg st).hasPid = true := by simp [TPc.hasPid, blockProg]
@@ -42,41 +44,60 @@ theorem hasPid_nil : (TPc.blk [] st).hasPid = false := rfl
 
 macro "thr_auto" : tactic =>
   `(tactic| ((try simp only [upd_apply, upd2_apply] at *)
-             grind [stopping, stopped, bp_name, bp_pid, hasName_idle, hasPid_idle, hasName_nil, hasPid_nil]))
+             grind [CPc.holds, stopping, stopped, bp_name, bp_pid, hasName_idle, hasPid_idle, hasName_nil, hasPid_nil]))
 
 theorem TInv.init : TInv init :=
-  { unborn := by intro a _; rfl
+  { unborn := by intro a _; simp [Reg3.init]
     owner := by intro n a h; simp [Reg3.init] at h
     pidOwner := by intro a h; simp [Reg3.init] at h
     elected := by intro a; simp [Reg3.init, stopping]
     blkEl := by intro a t rest st h; simp [Reg3.init] at h
     doneLe := by intro a t; simp [Reg3.init]
-    le6 := by intro a; simp [Reg3.init] }
+    le6 := by intro a; simp [Reg3.init]
+    bornCons := by intro a h; simp [Reg3.init] at h }
 
 macro "thr_inv" h:ident : tactic => `(tactic| (
   have hu := ($h).unborn; have ho := ($h).owner; have hp := ($h).pidOwner; have he := ($h).elected
-  have hb := ($h).blkEl; have hd := ($h).doneLe; have h6 := ($h).le6
-  refine ⟨?_, ?_, ?_, ?_, ?_, ?_, ?_⟩ <;> intros <;> thr_auto))
+  have hb := ($h).blkEl; have hd := ($h).doneLe; have h6 := ($h).le6; have hbc := ($h).bornCons
+  refine ⟨?_, ?_, ?_, ?_, ?_, ?_, ?_, ?_⟩ <;> intros <;> thr_auto))
 
-theorem TInv.spawn {s : State} (h : TInv s) (a : Nat) (name : Option Nat) : TInv (step s (.spawn a name)) := by
+theorem TInv.new {s : State} (h : TInv s) (a : Nat) (name : Option Nat) : TInv (step s (.new a name)) := by
   simp only [step]
   split
-  · next hb0 =>
-    have hua := h.unborn a hb0
-    split
+  · thr_inv h
+  · exact h
+
+theorem TInv.regName {s : State} (h : TInv s) (a : Nat) : TInv (step s (.regName a)) := by
+  simp only [step]
+  split
+  · split
     · thr_inv h
-    · split
-      · thr_inv h
-      · exact h
+    · thr_inv h
+  · exact h
+
+theorem TInv.regPid {s : State} (h : TInv s) (a : Nat) : TInv (step s (.regPid a)) := by
+  simp only [step]
+  split
+  · thr_inv h
+  · exact h
+
+theorem TInv.regPidFail {s : State} (h : TInv s) (a : Nat) : TInv (step s (.regPidFail a)) := by
+  simp only [step]
+  split
+  · thr_inv h
+  · exact h
+
+theorem TInv.rollback {s : State} (h : TInv s) (a : Nat) : TInv (step s (.rollback a)) := by
+  simp only [step]
+  split
+  · thr_inv h
   · exact h
 
 theorem TInv.spawnRemote {s : State} (h : TInv s) (a : Nat) (name : Option Nat) :
     TInv (step s (.spawnRemote a name)) := by
   simp only [step]
   split
-  · next hb0 =>
-    have hua := h.unborn a hb0
-    thr_inv h
+  · thr_inv h
   · exact h
 
 theorem TInv.publish {s : State} (h : TInv s) (a t st : Nat) : TInv (step s (.publish a t st)) := by
@@ -102,7 +123,11 @@ theorem TInv.bstep {s : State} (h : TInv s) (a t : Nat) : TInv (step s (.bstep a
 
 theorem TInv.step {s : State} (h : TInv s) (op : Op) : TInv (step s op) := by
   cases op with
-  | spawn a name => exact h.spawn a name
+  | new a name => exact h.new a name
+  | regName a => exact h.regName a
+  | regPid a => exact h.regPid a
+  | regPidFail a => exact h.regPidFail a
+  | rollback a => exact h.rollback a
   | spawnRemote a name => exact h.spawnRemote a name
   | publish a t st => exact h.publish a t st
   | bstep a t => exact h.bstep a t
@@ -120,25 +145,15 @@ theorem DInv.init : DInv init := by intro a t h; simp [Reg3.init, stopped] at h
 
 theorem DInv.step {s : State} (h : TInv s) (hd : DInv s) (op : Op) (hdisc : disc s op = true) :
     DInv (step s op) := by
-  have hu := h.unborn; have he := h.elected; have hb := h.blkEl; have hdl := h.doneLe
+  have hu := h.unborn; have he := h.elected; have hb := h.blkEl; have hdl := h.doneLe; have hbc := h.bornCons
   unfold DInv at hd ⊢
   cases op with
-  | spawn a name =>
-    simp only [Reg3.step]
-    split
-    · next hb0 =>
-      have hua := hu a hb0
-      split
-      · intros; thr_auto
-      · split
-        · intros; thr_auto
-        · exact hd
-    · exact hd
-  | spawnRemote a name =>
-    simp only [Reg3.step]
-    split
-    · intros; thr_auto
-    · exact hd
+  | new a name => simp only [Reg3.step]; split <;> first | exact hd | (intros; thr_auto)
+  | regName a => simp only [Reg3.step]; split <;> (try split) <;> first | exact hd | (intros; thr_auto)
+  | regPid a => simp only [Reg3.step]; split <;> first | exact hd | (intros; thr_auto)
+  | regPidFail a => simp only [Reg3.step]; split <;> first | exact hd | (intros; thr_auto)
+  | rollback a => simp only [Reg3.step]; split <;> first | exact hd | (intros; thr_auto)
+  | spawnRemote a name => simp only [Reg3.step]; split <;> first | exact hd | (intros; thr_auto)
   | publish a t st =>
     simp only [disc, Bool.or_eq_true, decide_eq_true_eq] at hdisc
     simp only [Reg3.step]
@@ -199,27 +214,15 @@ theorem SoundAlong.head {s : State} {ops : List Op} (h : SoundAlong s ops) : Sou
 
 /-- one step keeps `Sound` iff (for a `set_status(Stopped)` that takes effect) the entry is already gone -/
 theorem Sound.step {s : State} (h : TInv s) (hs : Sound s) (op : Op) (hw : weakest s op) : Sound (step s op) := by
-  have hu := h.unborn; have ho := h.owner
+  have hu := h.unborn; have ho := h.owner; have hbc := h.bornCons
   unfold Sound at hs ⊢
   cases op with
-  | spawn a name =>
-    simp only [Reg3.step]
-    split
-    · next hb0 =>
-      have hua := hu a hb0
-      split
-      · intros; thr_auto
-      · split
-        · intros; thr_auto
-        · exact hs
-    · exact hs
-  | spawnRemote a name =>
-    simp only [Reg3.step]
-    split
-    · next hb0 =>
-      have hua := hu a hb0
-      intros; thr_auto
-    · exact hs
+  | new a name => simp only [Reg3.step]; split <;> first | exact hs | (intros; thr_auto)
+  | regName a => simp only [Reg3.step]; split <;> (try split) <;> first | exact hs | (intros; thr_auto)
+  | regPid a => simp only [Reg3.step]; split <;> first | exact hs | (intros; thr_auto)
+  | regPidFail a => simp only [Reg3.step]; split <;> first | exact hs | (intros; thr_auto)
+  | rollback a => simp only [Reg3.step]; split <;> first | exact hs | (intros; thr_auto)
+  | spawnRemote a name => simp only [Reg3.step]; split <;> first | exact hs | (intros; thr_auto)
   | publish a t st =>
     simp only [weakest] at hw
     simp only [Reg3.step]
@@ -249,7 +252,11 @@ theorem publish_status (s : State) (a t st : Nat) (hb : (s.cell a).born = true) 
 
 theorem weakest_of_sound_step {s : State} (h : TInv s) (op : Op) (hs : Sound (step s op)) : weakest s op := by
   cases op with
-  | spawn a name => trivial
+  | new a name => trivial
+  | regName a => trivial
+  | regPid a => trivial
+  | regPidFail a => trivial
+  | rollback a => trivial
   | spawnRemote a name => trivial
   | bstep a t => trivial
   | publish a t st =>
@@ -285,15 +292,12 @@ theorem SInv.init : SInv init := by intro a t h; simp [Reg3.init] at h
 theorem SInv.step {s : State} (h : SInv s) (op : Op) (hs : single op = true) : SInv (step s op) := by
   unfold SInv at h ⊢
   cases op with
-  | spawn a name =>
-    simp only [Reg3.step]; split
-    · split
-      · intros; thr_auto
-      · split
-        · intros; thr_auto
-        · exact h
-    · exact h
-  | spawnRemote a name => simp only [Reg3.step]; split <;> intros <;> thr_auto
+  | new a name => simp only [Reg3.step]; split <;> first | exact h | (intros; thr_auto)
+  | regName a => simp only [Reg3.step]; split <;> (try split) <;> first | exact h | (intros; thr_auto)
+  | regPid a => simp only [Reg3.step]; split <;> first | exact h | (intros; thr_auto)
+  | regPidFail a => simp only [Reg3.step]; split <;> first | exact h | (intros; thr_auto)
+  | rollback a => simp only [Reg3.step]; split <;> first | exact h | (intros; thr_auto)
+  | spawnRemote a name => simp only [Reg3.step]; split <;> first | exact h | (intros; thr_auto)
   | publish a t st =>
     simp only [single, beq_iff_eq] at hs
     simp only [Reg3.step]; split
@@ -313,7 +317,11 @@ theorem SInv.step {s : State} (h : SInv s) (op : Op) (hs : single op = true) : S
 theorem disc_of_single {s : State} (h : SInv s) (op : Op) (hs : single op = true) (ho : ownOrdered s op = true) :
     disc s op = true := by
   cases op with
-  | spawn a name => rfl
+  | new a name => rfl
+  | regName a => rfl
+  | regPid a => rfl
+  | regPidFail a => rfl
+  | rollback a => rfl
   | spawnRemote a name => rfl
   | bstep a t => rfl
   | publish a t st =>
